@@ -43,6 +43,11 @@ def project_list(tier):
     out.append(("chain:drain", ("f_chain", {}), {"njob": 2}, True))
     out.append(("fail:drain", ("f_fail", {"kind": "fail"}), {"njob": 2, "keep_going": True}, True))
     out.append(("glob_product", ("f_twoplans", {"kind": "glob_vs_output_conflict"}), {"njob": 1}, False))
+    # second build with a target that is a static file the user deleted in between
+    out.append(("target_deleted_static", ("f_chain", {"src_exists": 0}), {"njob": 2, "targets": ["src.txt"]}, False,
+                ("f_chain", {})))
+    out.append(("target_deleted_static+c", ("f_chain", {"src_exists": 0}), {"njob": 2, "targets": ["src.txt", "c.txt"]}, False,
+                ("f_chain", {})))
     # second build in which a static file matched by a sub-plan's glob becomes a build product
     for nj in (1, 2):
         out.append((f"glob_product_late:j{nj}", ("f_fail", {"kind": "globprod2"}), {"njob": nj}, False,
@@ -72,7 +77,8 @@ def _run(spec, prefix):
         fam1, knobs1 = spec["first"]
         files1 = getattr(projects, fam1)(**knobs1)
         w = fresh_world(files1, "c19")
-        session(w, dict(spec["cfg"]), ())
+        # the first build is a complete one: no targets
+        session(w, {k: v for k, v in spec["cfg"].items() if k not in ("targets", "target_dirs")}, ())
         from .. import hist
         hist.sync(w, files1, getattr(projects, fam)(**knobs))
     else:
@@ -114,7 +120,11 @@ def analyse(obs):
     failed = [s for s, st in attached.items() if st["state"] == "FAILED"]
     required = refmodel.required_steps(obs, targets, tdirs)
     pending = [s for s in required if attached[s]["state"] == "PENDING"]
-    invalid_target = any(r[0] == "ERROR" and r[1].startswith("Invalid build target") for r in obs.reports)
+    # independent of the reports: a requested target that the graph holds as a static file
+    # (present, missing or not yet confirmed) or as a volatile output is not a valid target
+    invalid_target = any(
+        t in obs.db_files and not obs.db_files[t][2]
+        and obs.db_files[t][0] in ("MISSING", "UNCONFIRMED", "CONFIRMED", "VOLATILE") for t in targets)
     # FAILED bit
     exp_failed = bool(failed) or invalid_target
     # independent of what was reported: an attached glob pattern whose regex matches an attached
